@@ -70,6 +70,44 @@ namespace nmtools::array
             auto numel   = index::product(sizes_);
             // since size may be packed, the proper way to read dim is using len instead of sizes..+1
             auto new_dim = len(sizes_);
+            // validate before touching shape_ and data_:
+            // a refused resize returns false and leaves the array unchanged
+            {
+                [[maybe_unused]] constexpr auto max_dim  = meta::bounded_size_v<shape_type>;
+                [[maybe_unused]] constexpr auto max_size = meta::bounded_size_v<buffer_type>;
+                if constexpr (!meta::is_resizable_v<shape_type>) {
+                    if ((size_t)len(shape_) != (size_t)new_dim) {
+                        return false;
+                    }
+                } else if constexpr (!meta::is_fail_v<decltype(max_dim)>) {
+                    if ((size_t)new_dim > (size_t)max_dim) {
+                        return false;
+                    }
+                }
+                if constexpr (!meta::is_resizable_v<buffer_type>) {
+                    if ((size_t)len(data_) != (size_t)numel) {
+                        return false;
+                    }
+                } else if constexpr (!meta::is_fail_v<decltype(max_size)>) {
+                    if ((size_t)numel > (size_t)max_size) {
+                        return false;
+                    }
+                }
+                if constexpr (meta::is_clipped_index_array_v<shape_type>) {
+                    constexpr auto max_sizes = meta::to_value_v<shape_type>;
+                    if ((size_t)len(sizes_) != (size_t)len(max_sizes)) {
+                        return false;
+                    }
+                    if ((size_t)index::product(sizes_) > (size_t)index::product(max_sizes)) {
+                        return false;
+                    }
+                    for (size_t i=0; i<len(max_sizes); i++) {
+                        if ((size_t)at(sizes_,i) > (size_t)at(max_sizes,i)) {
+                            return false;
+                        }
+                    }
+                }
+            }
             if constexpr (meta::is_resizable_v<shape_type>) {
                 shape_.resize(new_dim);
             }
